@@ -554,4 +554,175 @@ theorem Inv_run (cfg : Cfg) (sched : List (Sid × Action)) (σ : State) (h : Inv
     simp only [run]
     exact ih _ (Inv_step cfg σ s a h)
 
+/-! ### what an applied / refused UPDATE means -/
+
+theorem setImmediate_sess (σ : State) (s : Sid) :
+    ((setImmediate σ s).sess s).objs = (σ.sess s).objs ∧ ((setImmediate σ s).sess s).pend = (σ.sess s).pend
+    ∧ ((setImmediate σ s).sess s).forUpd = (σ.sess s).forUpd ∧ ((setImmediate σ s).sess s).toSave = (σ.sess s).toSave
+    ∧ (setImmediate σ s).store = σ.store := by
+  simp [setImmediate, State.withSess]
+
+theorem wake_sess (σ : State) (s : Sid) :
+    ((wake σ s).sess s).objs = (σ.sess s).objs ∧ ((wake σ s).sess s).pend = (σ.sess s).pend
+    ∧ ((wake σ s).sess s).forUpd = (σ.sess s).forUpd ∧ ((wake σ s).sess s).toSave = (σ.sess s).toSave
+    ∧ (wake σ s).store = σ.store := by
+  simp [wake, State.withSess]
+
+theorem view_congr (σ σ' : State) (s : Sid) (o : Obj) (a : Attr) (hp : (σ'.sess s).pend = (σ.sess s).pend)
+    (hs : σ'.store = σ.store) : view σ' s o a = view σ s o a := by
+  simp [view, hp, hs]
+
+theorem view_prep (σ : State) (s : Sid) (o : Obj) (a : Attr) :
+    view (ensureTxn (setImmediate σ s) s).1 s o a = view σ s o a := by
+  have he := ensureTxn_sess (setImmediate σ s) s
+  have hi := setImmediate_sess σ s
+  exact view_congr _ _ s o a (by rw [he.2.1, hi.2.1]) (by rw [he.2.2.2.2, hi.2.2.2.2])
+
+/-- the WHERE clause Pony generated was true of the row its connection saw -/
+def WhereHeld (cfg : Cfg) (σ : State) (s : Sid) (o : Obj) : Prop :=
+  ∀ a, a ∈ cfg.attrs → cfg.sessOpt s = true → (σ.sess s).forUpd o = false →
+    ((σ.sess s).objs o).rbits a = true → cfg.attrOpt a = true → ((σ.sess s).objs o).dbvals a = some (view σ s o a)
+
+theorem saveHead_applied (cfg : Cfg) (σ : State) (s : Sid) (o' : Obj) (rest : List Obj) (done : Res) (o : Obj)
+    (h : (saveHead cfg σ s o' rest done).2.upd = some o) : o' = o ∧ WhereHeld cfg σ s o := by
+  unfold saveHead at h
+  simp only at h
+  by_cases hw : (wAttrs cfg ((σ.sess s).objs o')).isEmpty = true
+  · simp [hw] at h
+  · simp only [hw] at h
+    by_cases hb : (ensureTxn (setImmediate σ s) s).2 = true
+    · simp only [hb, Bool.not_true, Bool.false_eq_true, if_false] at h
+      have hfu : ((ensureTxn (setImmediate σ s) s).1.sess s).forUpd = (σ.sess s).forUpd := by
+        rw [(ensureTxn_sess _ s).2.2.1, (setImmediate_sess σ s).2.2.1]
+      rw [hfu] at h
+      by_cases hk : ((if (cfg.sessOpt s && !(σ.sess s).forUpd o') = true then optCols cfg ((σ.sess s).objs o') else []).any
+            (fun a => (((σ.sess s).objs o').dbvals a).isNone) ||
+          (wAttrs cfg ((σ.sess s).objs o')).any (fun a => (((σ.sess s).objs o').vals a).isNone)) = true
+      · simp [hk] at h
+      · simp only [hk] at h
+        by_cases hall : ((if (cfg.sessOpt s && !(σ.sess s).forUpd o') = true then optCols cfg ((σ.sess s).objs o') else []).all
+            fun a => ((σ.sess s).objs o').dbvals a == some (view (ensureTxn (setImmediate σ s) s).1 s o' a)) = true
+        · simp only [hall, if_true] at h
+          have ho : o' = o := Option.some.inj h
+          subst ho
+          refine ⟨rfl, ?_⟩
+          intro a ha hopt hf hr hao
+          simp only [hopt, hf, Bool.not_false, Bool.and_self, if_true] at hall
+          have hm : a ∈ optCols cfg ((σ.sess s).objs o') := by
+            unfold optCols; exact List.mem_filter.mpr ⟨ha, by simp [hr, hao]⟩
+          have := List.all_eq_true.mp hall a hm
+          rw [view_prep] at this
+          simpa using this
+        · simp [hall] at h
+    · simp [hb] at h
+
+theorem saveHead_store (cfg : Cfg) (σ : State) (s : Sid) (o : Obj) (rest : List Obj) (done : Res) :
+    (saveHead cfg σ s o rest done).1.store = σ.store := by
+  have he := ensureTxn_sess (setImmediate σ s) s
+  have hi := setImmediate_sess σ s
+  unfold saveHead
+  simp only
+  split
+  · rfl
+  · split
+    · rw [he.2.2.2.2, hi.2.2.2.2]
+    · split
+      · simp [failSess, he.2.2.2.2, hi.2.2.2.2]
+      · split
+        · simp [State.withSess, he.2.2.2.2, hi.2.2.2.2]
+        · simp [failSess, he.2.2.2.2, hi.2.2.2.2]
+
+theorem failSess_sess (cfg : Cfg) (σ : State) (s : Sid) : (failSess cfg σ s).sess s = Sess.fresh cfg s := by
+  simp [failSess]
+
+/-- when a step of `saveHead` raises, the session is gone (rolled back) -/
+theorem saveHead_failed (cfg : Cfg) (σ : State) (s : Sid) (o : Obj) (rest : List Obj) (done : Res)
+    (hd : done.failed = false) (h : (saveHead cfg σ s o rest done).2.res.failed = true) :
+    (saveHead cfg σ s o rest done).1.sess s = Sess.fresh cfg s ∧ (saveHead cfg σ s o rest done).2.upd = none := by
+  unfold saveHead at h ⊢
+  simp only at h ⊢
+  split
+  · rename_i hw; simp [hw, hd] at h
+  · rename_i hw
+    simp only [hw] at h
+    split
+    · rename_i hb; simp [hb, Res.failed] at h
+    · rename_i hb
+      simp only [hb] at h
+      split
+      · exact ⟨failSess_sess cfg _ s, rfl⟩
+      · rename_i hk
+        simp only [hk] at h
+        split
+        · rename_i hall; simp [hall, hd] at h
+        · exact ⟨failSess_sess cfg _ s, rfl⟩
+
+theorem saveHead_no_keyError (cfg : Cfg) (σ : State) (s : Sid) (o : Obj) (rest : List Obj) (done : Res)
+    (hi : Inv cfg σ) (hd : done ≠ .keyError) : (saveHead cfg σ s o rest done).2.res ≠ .keyError := by
+  have hO := (hi.1 s).1 o
+  unfold saveHead
+  simp only
+  split
+  · exact hd
+  · split
+    · simp
+    · have hk : ((if (cfg.sessOpt s && !((ensureTxn (setImmediate σ s) s).1.sess s).forUpd o) = true
+            then optCols cfg ((σ.sess s).objs o) else []).any (fun a => (((σ.sess s).objs o).dbvals a).isNone) ||
+          (wAttrs cfg ((σ.sess s).objs o)).any (fun a => (((σ.sess s).objs o).vals a).isNone)) = false := by
+        rw [Bool.or_eq_false_iff]
+        constructor
+        · rw [List.any_eq_false]
+          intro a ha
+          split at ha
+          · have := (List.mem_filter.mp ha).2
+            simp only [Bool.and_eq_true] at this
+            have := ((hO a).2.2.1 this.1).1
+            cases hv : ((σ.sess s).objs o).dbvals a <;> simp_all
+          · simp at ha
+        · rw [List.any_eq_false]
+          intro a ha
+          have := (List.mem_filter.mp ha).2
+          have := ((hO a).2.1 this).1
+          cases hv : ((σ.sess s).objs o).vals a <;> simp_all
+      simp only [hk, Bool.false_eq_true, if_false]
+      split
+      · exact hd
+      · simp
+
+/-- the refusal: a read attribute whose row value differs from `_dbvals_` makes the UPDATE match no row -/
+theorem saveHead_refused (cfg : Cfg) (σ : State) (s : Sid) (o : Obj) (rest : List Obj) (done : Res) (a : Attr) (v : Val)
+    (hi : Inv cfg σ) (hopt : cfg.sessOpt s = true) (hfu : (σ.sess s).forUpd o = false) (ha : a ∈ cfg.attrs)
+    (hao : cfg.attrOpt a = true) (hr : ((σ.sess s).objs o).rbits a = true) (hdv : ((σ.sess s).objs o).dbvals a = some v)
+    (hne : view σ s o a ≠ v) (hw : wAttrs cfg ((σ.sess s).objs o) ≠ []) :
+    ((saveHead cfg σ s o rest done).2.res = .blocked ∨ (saveHead cfg σ s o rest done).2.res = .optimisticCheckError)
+    ∧ (saveHead cfg σ s o rest done).2.upd = none := by
+  have hnk := saveHead_no_keyError cfg σ s o rest .flushing hi (by simp)
+  have hfu' : ((ensureTxn (setImmediate σ s) s).1.sess s).forUpd = (σ.sess s).forUpd := by
+    rw [(ensureTxn_sess _ s).2.2.1, (setImmediate_sess σ s).2.2.1]
+  unfold saveHead at hnk ⊢
+  simp only at hnk ⊢
+  have hwe : (wAttrs cfg ((σ.sess s).objs o)).isEmpty = false := by
+    cases hl : wAttrs cfg ((σ.sess s).objs o) with
+    | nil => exact absurd hl hw
+    | cons _ _ => rfl
+  simp only [hwe, Bool.false_eq_true, if_false] at hnk ⊢
+  by_cases hb : (ensureTxn (setImmediate σ s) s).2 = true
+  · simp only [hb, Bool.not_true, Bool.false_eq_true, if_false] at hnk ⊢
+    rw [hfu'] at hnk ⊢
+    simp only [hopt, hfu, Bool.not_false, Bool.and_self, if_true] at hnk ⊢
+    by_cases hk : ((optCols cfg ((σ.sess s).objs o)).any (fun a => (((σ.sess s).objs o).dbvals a).isNone) ||
+          (wAttrs cfg ((σ.sess s).objs o)).any (fun a => (((σ.sess s).objs o).vals a).isNone)) = true
+    · simp [hk] at hnk
+    · simp only [hk]
+      have hall : ((optCols cfg ((σ.sess s).objs o)).all
+          fun a => ((σ.sess s).objs o).dbvals a == some (view (ensureTxn (setImmediate σ s) s).1 s o a)) = false := by
+        rw [List.all_eq_false]
+        refine ⟨a, ?_, ?_⟩
+        · unfold optCols; exact List.mem_filter.mpr ⟨ha, by simp [hr, hao]⟩
+        · rw [view_prep, hdv]
+          simp only [beq_iff_eq, Option.some.injEq]
+          exact fun h => hne h.symm
+      simp [hall]
+  · simp [hb]
+
 end PonyVerif.Model.Occ
